@@ -231,7 +231,7 @@ ALLVAR = [[u, z] for u in ("ns", "us", "ms", "s") for z in ("naive", "utc", "+10
 
 def run(ctx):
     rng = ctx.rng(1)
-    nrep = 50 if ctx.tier == "quick" else 500
+    nrep = 50 if ctx.tier == "quick" else 3000
     for it0 in range(nrep):
         it = it0 + ctx.shard
         if ctx.out_of_time():
